@@ -506,6 +506,107 @@ def _desugar_any_all(stmts):
     return out
 
 
+def _desugar_reduce(stmts):
+    """x = functools.reduce(lambda acc, v: E, it, init)   ->   x = init; for v in it: x = E[acc := x]"""
+    out = []
+    for s in stmts:
+        for fld in ("body", "orelse", "finalbody"):
+            if isinstance(getattr(s, fld, None), list) and not isinstance(s, (ast.FunctionDef, ast.ClassDef)):
+                setattr(s, fld, _desugar_reduce(getattr(s, fld)))
+        for hnd in getattr(s, "handlers", []) or []:
+            hnd.body = _desugar_reduce(hnd.body)
+        v = s.value if isinstance(s, ast.Assign) and len(s.targets) == 1 and isinstance(s.targets[0], ast.Name) else None
+        if isinstance(v, ast.Call) and norm_(v.func) in ("functools.reduce", "reduce") and len(v.args) == 3 and not v.keywords and isinstance(v.args[0], ast.Lambda) \
+                and len(v.args[0].args.args) == 2 and not v.args[0].args.defaults and not _has(v.args[0].body, (ast.Lambda, ast.NamedExpr)):
+            lam, it, init = v.args
+            acc, var = lam.args.args[0].arg, lam.args.args[1].arg
+            tgt = s.targets[0].id
+            if tgt != var and not any(isinstance(n, ast.Name) and n.id == tgt for n in ast.walk(lam.body)) and not any(isinstance(n, ast.Name) and n.id == tgt for n in ast.walk(it)):
+                body = _Subst({acc: ast.Name(id=tgt, ctx=ast.Load())}).visit(_clone(lam.body))
+                out.append(ast.copy_location(ast.Assign(targets=[ast.Name(id=tgt, ctx=ast.Store())], value=init), s))
+                out.append(ast.copy_location(ast.For(target=ast.Name(id=var, ctx=ast.Store()), iter=it,
+                                                     body=[ast.copy_location(ast.Assign(targets=[ast.Name(id=tgt, ctx=ast.Store())], value=body), s)], orelse=[]), s))
+                continue
+        out.append(s)
+    return out
+
+
+def _dispatch_table(mod, name):
+    """module-level NAME = {KEY: lambda ...: expr | function name, ...} bound once -> [(key expr, callable expr)]"""
+    sts = mod.assigns.get(name, [])
+    if len(sts) != 1 or not isinstance(sts[0], ast.Assign) or not isinstance(sts[0].value, ast.Dict):
+        return None
+    d = sts[0].value
+    rows = []
+    for k, v in zip(d.keys, d.values):
+        if k is None or not isinstance(v, (ast.Lambda, ast.Name)) or not isinstance(k, (ast.Constant, ast.Attribute, ast.Name)):
+            return None
+        rows.append((k, v))
+    return rows or None
+
+
+def _apply_callable(f, args):
+    """call of a table entry: a lambda's body with parameters replaced, or a plain call of the named function"""
+    if isinstance(f, ast.Lambda):
+        a = f.args
+        if a.vararg or a.kwarg or a.kwonlyargs or a.posonlyargs or a.defaults or len(a.args) != len(args):
+            raise NotInlinable("lambda signature")
+        uses = {}
+        for n in ast.walk(f.body):
+            if isinstance(n, ast.Name):
+                uses[n.id] = uses.get(n.id, 0) + 1
+        if any(not _pure_arg(v) and uses.get(p.arg, 0) > 1 for p, v in zip(a.args, args)):
+            raise NotInlinable("impure argument")
+        return _Subst({p.arg: v for p, v in zip(a.args, args)}).visit(_clone(f.body))
+    return ast.Call(func=_clone(f), args=[_clone(x) for x in args], keywords=[])
+
+
+def _expand_dispatch_tables(mod, fn):
+    """rule = TABLE.get(key, default); ... rule(a, b)   ->   (body1 if key == K1 else body2 if key == K2 else ... default(a, b))"""
+    changed = False
+    for st in list(ast.walk(fn)):
+        if not (isinstance(st, ast.Assign) and len(st.targets) == 1 and isinstance(st.targets[0], ast.Name) and isinstance(st.value, ast.Call)
+                and isinstance(st.value.func, ast.Attribute) and st.value.func.attr == "get" and isinstance(st.value.func.value, ast.Name)
+                and len(st.value.args) == 2 and not st.value.keywords):
+            continue
+        rows = _dispatch_table(mod, st.value.func.value.id)
+        key, dflt = st.value.args
+        if rows is None or not _pure_arg(key) or not isinstance(dflt, (ast.Lambda, ast.Name)):
+            continue
+        v = st.targets[0].id
+        refs = [n for n in ast.walk(fn) if isinstance(n, ast.Name) and n.id == v]
+        calls = [c for c in ast.walk(fn) if isinstance(c, ast.Call) and isinstance(c.func, ast.Name) and c.func.id == v]
+        if len(refs) != len(calls) + 1 or any(c.keywords or any(isinstance(a, ast.Starred) for a in c.args) for c in calls) or not calls:
+            continue
+        # the key must not be rebound between the lookup and the calls: require it to be bound at most once in fn
+        key_names = {n.id for n in ast.walk(key) if isinstance(n, ast.Name)}
+        stores = [n.id for n in ast.walk(fn) if isinstance(n, ast.Name) and isinstance(n.ctx, ast.Store) and n.id in key_names]
+        if len(stores) != len(set(stores)):
+            continue
+        try:
+            repl = {}
+            for c in calls:
+                e = _apply_callable(dflt, c.args)
+                for k, f in reversed(rows):
+                    e = ast.IfExp(test=ast.Compare(left=_clone(key), ops=[ast.Eq()], comparators=[_clone(k)]), body=_apply_callable(f, c.args), orelse=e)
+                repl[id(c)] = e
+        except NotInlinable:
+            continue
+
+        class R(ast.NodeTransformer):
+            def visit_Call(self_, c):
+                self_.generic_visit(c)
+                return ast.copy_location(repl[id(c)], c) if id(c) in repl else c
+
+            def visit_Assign(self_, a):
+                if a is st:
+                    return ast.copy_location(ast.Pass(), a)
+                return self_.generic_visit(a)
+        R().visit(fn)
+        changed = True
+    return changed
+
+
 def _comp_to_loops(comp, target, body, at):
     inner = [ast.copy_location(ast.Assign(targets=[_clone(target)], value=comp.elt), at)] + body
     for gen in reversed(comp.generators):
@@ -786,6 +887,8 @@ def canonical_function(mod, fn, depth=3):
     pre = _clone(fn)
     pre.qual, pre.module, pre.cls = fn.qual, fn.module, getattr(fn, "cls", None)
     _inline_local_closures(pre)
+    _expand_dispatch_tables(mod, pre)
+    pre.body = _desugar_reduce(pre.body)
     pre.body = _hoist_nested_helper_calls(mod, pre.body, fn)
     hoisted = ast.dump(pre) != ast.dump(fn)
     base = inline_function(mod, pre if hoisted else fn, depth)
